@@ -13,7 +13,7 @@ def check(tier, seed):
                       args=lambda t, s, sh, path: ["pos-monitor", 500 if t == "quick" else 8000, s * 1000 + 900 + sh, 3 if t == "quick" else 5],
                       violation_kinds=["check-cache-stale"]),
                  dict(name="position_model_vs_engine", kind="coqprint", shards=lambda t: 2 if t == "quick" else 8,
-                      args=lambda t, s, sh, path: ["pos-cases", 12 if t == "quick" else 60, s * 1000 + 950 + sh, path], coq_timeout=3000),
+                      args=lambda t, s, sh, path: ["pos-cases", 12 if t == "quick" else 60, s * 1000 + 950 + sh, path], coq_timeout=3000, replay_kinds=['check-cache-stale']),
                  pos_stream("predicates_vs_spec", ["in-check", "is-attacked", "gives-check", "legality-pre", "legality-post", "attackers"], violation_kinds=["is-attacked-panic", "predicate-depends-on-call-order"])])
 
 
